@@ -163,6 +163,10 @@ var (
 		Text: "every for statement in a function reachable from VM.Run other than the dispatch loop is a range, a counted loop, a loop that changes its condition or an open loop with an exit; a counter stepped by a run-time value is guarded against wrapping around (an endless builtin is out of reach of Abort and of the allocation limit)"}
 	rCMP5 = &Rule{Name: "CMP.5", Floor: 10, Fn: ruleCMP5,
 		Text: "copy yields an equal value: for every value type whose Copy builds a new object, Equals is not pointer identity or constant false (listed findings: error and function values)"}
+	rFMT6 = &Rule{Name: "FMT.6", Floor: 10, Fn: ruleFMT6,
+		Text: "near-ports: writePadding, fmtInteger, fmtSbx, fmtC, pp.fmtInteger, pp.fmtBytes, pp.badVerb, pp.badArgNum, pp.missingArg and the directive parser pp.doFormat (vs doPrintf) equal the building toolchain's fmt statement by statement (alpha-normalised, longest common subsequence) except for the MaxStringLen guards the port added and one tabled difference each"}
+	rFMT7 = &Rule{Name: "FMT.7", Floor: 9, Fn: ruleFMT7,
+		Text: "printArg's type dispatch: each object arm is fmt's arm for the Go type of the object's value applied to that value (Bool through !IsFalsy()), the default arm formats String() as a string, %T/%v are served first from TypeName()/String()"}
 	rSEARCH1 = &Rule{Name: "SEARCH.1", Floor: 2, Fn: ruleSEARCH1,
 		Text: "the position→file lookup is `last file with Base <= x`: searchFiles is sort.Search over Base > x minus one (or a clone of its documented sibling searchInts), and both containment tests are Base <= p <= Base+Size"}
 )
@@ -232,7 +236,7 @@ func allProperties() []*Property {
 		{ID: "C17",
 			Decided:    "all output goes through writers guarded by MaxStringLen; explicit panics are the limit error or proven unreachable; width/precision are bounded; printer pooling hygiene; verb dispatch, flag parsing and the verbatim-ported helpers agree with the building toolchain's fmt.",
 			NotDecided: "equality with fmt.Sprintf for all inputs (the non-identical parts of the port: fmtInteger, fmtFloat, fmtC, padding, doFormat's argument handling); implicit index panics inside digit loops.",
-			Rules:      []*Rule{rLIMIT2, rFMT1, rFMT2, rFMT3, rFMT4, rFMT5, rPOOL1}},
+			Rules:      []*Rule{rLIMIT2, rFMT1, rFMT2, rFMT3, rFMT4, rFMT5, rFMT6, rFMT7, rPOOL1}},
 		{ID: "C18",
 			Decided:    "the validity automaton equals encoding/json's state by state; validate-before-decode; number typing by '.', 'e', 'E'; escape tables equal the reference's; encoder arms for all named types.",
 			NotDecided: "round-trip equality of values; number and string values after decoding; float formatting.",
